@@ -2777,6 +2777,10 @@ func (s *Server) serveConnCounted(c net.Conn, countConcurrency bool) error {
 
 		if s.stop.Load() == 1 {
 			err = nil
+			// A pipelined response may still sit in the write buffer.
+			if bw != nil && bw.Buffered() > 0 {
+				err = bw.Flush()
+			}
 			break
 		}
 	}
